@@ -195,7 +195,8 @@ def extract(src) -> dict:
     fmt = ast.parse(src("fieldcompare/_format.py"))
     sep = None
     for s in fmt.body:
-        if isinstance(s, ast.Assign) and isinstance(s.targets[0], ast.Name) and s.targets[0].id == "_ANNOTATION_SEPARATOR":
+        tgt = s.targets[0] if isinstance(s, ast.Assign) else (s.target if isinstance(s, ast.AnnAssign) else None)
+        if isinstance(tgt, ast.Name) and tgt.id == "_ANNOTATION_SEPARATOR" and isinstance(s.value, ast.Constant):
             sep = s.value.value
     if not isinstance(sep, str) or not sep:
         raise ValueError("_ANNOTATION_SEPARATOR not found")
